@@ -145,7 +145,11 @@ func (m *Mod) Name(n string) {
 	m.M.NameSection.ModuleName = n
 }
 
-func (m *Mod) Build() []byte { return binaryencoding.EncodeModule(&m.M) }
+// Build encodes the module (own encoder: wazero's test encoder lacks passive/declarative elements).
+func (m *Mod) Build() []byte { return encodeModule(&m.M) }
+
+// BuildWithTestEncoder uses wazero's internal test encoder (kept for cross-checking the two encoders).
+func (m *Mod) BuildWithTestEncoder() []byte { return binaryencoding.EncodeModule(&m.M) }
 
 // ---- instruction helpers ---------------------------------------------------------------------
 
